@@ -115,6 +115,14 @@ func zzC16PctEncode(rng *rand.Rand, seg string) (enc string) {
 func zzC16Request(in *zzC16In, rng *rand.Rand, reqID uint64, confName string) (pctx *proxy.DNSContext, concrete string, err error) {
 	cli := zzC16Name(in.Cli)
 	req := (&dns.Msg{}).SetQuestion("probe.example.org.", dns.TypeA)
+	// The 16-bit message id is the client's choice and says nothing about the
+	// request's identity: DoH clients send 0 (RFC 8484), others are drawn here
+	// from a handful of values so that different requests share one.
+	req.Id = 0
+	if in.Proto != "https" {
+		req.Id = uint16(rng.Intn(4))
+	}
+
 	pctx = &proxy.DNSContext{
 		Proto:     zzC16Protos[in.Proto],
 		Req:       req,
